@@ -94,3 +94,75 @@ def c18(res, tier, seed):
                 "a shared lazily decoded message log their own observation sequences; Trace_LazyConc searches an explaining interleaving")
     res.assumptions += ["the Go memory model is not modelled: the specification works at the granularity of atomic operations; data-race freedom is observed by the race detector in the thorough tier",
                         "IndexBuilt = FALSE configurations are model-only: unmarshalPointerLazy always stores the index before readers exist"]
+
+
+# ============================================================================ C19
+MODULE_OF.update(C19="onceinit")
+HARNESS_PKGS.update(C19=("conc",))
+ONCE_PROPS = ("INVARIANT UseSeesAll\nINVARIANT FlagImpliesComplete\nINVARIANT BodyOnce\nINVARIANT Mutex\nPROPERTY FlagMonotone\nPROPERTY Terminates\n")
+
+
+def mc_once(res, g, flag0, tour=None):
+    c = "SPECIFICATION Spec\nCONSTANT G = %d\nCONSTANT K = 3\nCONSTANT Flag0 = %d\n" % (g, flag0) + ONCE_PROPS + \
+        "VIEW View\nCHECK_DEADLOCK FALSE\n" + ("ACTION_CONSTRAINT Emit\n" if tour else "")
+    r = tlc("MC_OnceInit", c, emit_to=tour, workers=2, timeout=1800)
+    res.add_tlc(r, "OnceInit G=%d K=3 Flag0=%d: all interleavings; UseSeesAll, FlagImpliesComplete, BodyOnce, Mutex, FlagMonotone, termination" % (g, flag0))
+    return r
+
+
+def first_use_runs(res, binary, seed, nproc, env=None, label=""):
+    """Fresh processes: the first is the sequential reference (one goroutine, every item), the others make concurrent first use."""
+    import random
+    rnd = random.Random(seed)
+    cases = [dict(seed=seed, g=1, frac=1)] + [dict(seed=rnd.randrange(1 << 30), g=rnd.choice([2, 4, 8, 16, 32]), frac=rnd.choice([1, 2, 3, 5]))
+                                             for _ in range(nproc)]
+    trace = os.path.join(scratch(), "firstuse%s-%d.ndjson" % (label, seed))
+    with open(trace, "w") as out:
+        for i, c in enumerate(cases):
+            inp = os.path.join(scratch(), "fu.in")
+            with open(inp, "w") as fh:
+                fh.write(json.dumps(c) + "\n")
+            r = harness(binary, ["exec", "firstuse", inp, inp + ".out"], env=env, check=False)
+            if r.returncode != 0:
+                if "DATA RACE" in (r.stdout + r.stderr):
+                    res.fail(dict(c, _module="firstuse", race=(r.stdout + r.stderr)[-1500:]), "first use: the race detector reported a data race")
+                    continue
+                raise vlib.Infra("firstuse process failed: %s" % (r.stdout + r.stderr)[-1500:])
+            out.write(open(inp + ".out").read())
+    total, bad = vlib.validate_trace("FirstUseMemo", trace, shards=1, timeout=1800)
+    events = list(read_ndjson(trace))
+    for i in bad:
+        res.fail(dict({k: v for k, v in events[i].items() if k != "out"}, _module="firstuse",
+                      note=str(events[i]["out"].get("panic", "digest differs from the sequential reference"))[:400]),
+                 "first use: a goroutine observed a descriptor/behaviour digest different from the sequential program (or panicked)")
+    for e in events:
+        res.distinct.add(json.dumps(["firstuse", e["g"], e["frac"]]))
+    res.sample(json.dumps({k: v for k, v in events[-1].items() if k != "out"}) + " -> %d (name, digest) observations" % len(events[-1]["out"].get("digs", {})))
+    res.trace_events += sum(len(e["out"].get("digs", {})) for e in events)
+    res.evaluations += len(events)
+    res.traces += len(events)
+
+
+@check("C19")
+def c19(res, tier, seed):
+    b = build_harness(("conc",))
+    tour = os.path.join(scratch(), "c19.tour")
+    mc_once(res, 2, 0, tour=tour)
+    mc_once(res, 2, 1, tour=tour)
+    mc_once(res, 3, 0)           # two waiters: the Go mutex decides who acquires, so G=3 is model-checked but not gate-replayed
+    if tier != "quick":
+        mc_once(res, 4, 0)
+    res.exhaustive = True
+    replay_tour(res, b, "onceinit", tour, key=lambda e: ["gated", e["g"], e["flag0"], [s["at"] + str(s["obs"]) for s in e["steps"]][-3:]])
+    first_use_runs(res, b, seed, 6 if tier == "quick" else 60)
+    if tier != "quick":
+        br = build_harness(("conc",), race=True)
+        first_use_runs(res, br, seed + 7, 12, env={"GORACE": "halt_on_error=1 exitcode=66"}, label="-race")
+        res.notes.append("12 fresh -race processes of concurrent first use: a DATA RACE report is a violation")
+    res.rule = ("gated: TLC enumerates every interleaving of 2 goroutines through MessageInfo.init/initOnce (flag initially clear or set); every "
+                "transition is replayed on real goroutines parked at verifhook gates on a message type not used before in the process, comparing "
+                "the flag value / table completeness observed at every step; free: fresh processes in which 2-32 goroutines make concurrent first "
+                "use of a seeded subset of ~1500 registered types, enums, extensions and files; every (item, digest) must equal the sequential "
+                "reference (FirstUseMemo); distinct = step-observation suffixes and (goroutines, subset) classes")
+    res.assumptions += ["gated replay covers impl.MessageInfo.init (generated and opaque paths); filedesc lazy init, legacy wrappers and the global registries are covered by the free-running digests only",
+                        "the Go memory model is not modelled; -race runs in the thorough tier"]
